@@ -21,6 +21,15 @@ CHECKS = {
         "note": "Small-scope exhaustive (length bound, fixed alphabet and environment). Inputs with NUL/BOM/invalid UTF-8 excluded (text/scanner alters them); trailing lone '%' accepted either way.",
         "technique": _TLC,
     },
+    "C12": {
+        "level": "model_checking",
+        "text": "Comments.tla defines tag classification (trim, marker, key/value split, ordered multimap) and the geometric attribution of doc and trailing "
+                "comments over layouts of line kinds in five declaration contexts; TLC proves that a two-index scheme (leading groups by end line, trailing groups "
+                "apart) equals the geometric definition for all layouts in bound and shows the counterexample when trailing groups leak into the leading index; every "
+                "line / line list / layout in bound is replayed (real Go source loaded by types.Load) and CommentsTrace.tla judges tags, other lines, Doc, Comment per declaration.",
+        "note": "Canonical comment texts; comments trailing '(' or '{' lines and tab-indented tag lines are not generated (statement silent). Exhaustive up to the line-count / length bound.",
+        "technique": _TLC,
+    },
     "C15": {
         "level": "model_checking",
         "text": "TypeRef.tla defines reference trees, their printer, a character-level parser with a bracket depth counter, the path/name split point and the "
